@@ -339,7 +339,7 @@ def one_c11(job):
     os.makedirs(jd, exist_ok=True)
     db, db2 = os.path.join(jd, "db"), os.path.join(jd, "db2")
     sid = "C11-%d" % idx
-    world = dict(nkeys=len(hists) + 2)
+    world = dict(nkeys=len(hists) + 5)
     ops = []
     if big:
         # a well-filled database: every key first signs a genesis attestation and a proposal, so each holds both kinds of record
@@ -379,6 +379,10 @@ def one_c11(job):
                 group.append(dict(k=k, s=hs + 1, t=ht, root="X", by="name"))
             elif hs < 0:
                 group.append(dict(k=k, s=0, t=1, root="X", by="name"))
+        # ... next to NEWCOMERS: keys this instance has never seen, each with an entry that is refused for what it is (target below source).
+        # Such a key signs nothing, ever; what the batch leaves behind for it must not disturb what is exported for the others
+        for nk_ in range(3):
+            group.insert((idx + 2 * nk_) % (len(group) + 1), dict(k=len(hists) + 2 + nk_, s=2, t=1, root="N", by=("name", "key")[nk_ % 2]))
         if len(group) >= 2:
             ops.append(dict(id="bx", kind="atts", ents=group))
     # two more keys whose only records are in the OLDER on-disk format (gob), with values that include zero
